@@ -152,7 +152,12 @@ func matchFinding(ff findingsFile, prop, f string) *finding {
 		if k.Property != prop || k.State != "open" {
 			continue
 		}
-		if !strings.HasPrefix(f, k.Class+": ") {
+		if strings.HasSuffix(k.Class, "*") {
+			// "Cxx/*": any violation class of the property
+			if !strings.HasPrefix(f, strings.TrimSuffix(k.Class, "*")) {
+				continue
+			}
+		} else if !strings.HasPrefix(f, k.Class+": ") {
 			continue
 		}
 		ok := true
